@@ -79,6 +79,8 @@ def run(ctx, rep):
             rule = 'R11.1'
         elif c.startswith('Expr::While') and ob in ('O1', 'O3', 'O7', 'O4', 'O6'):
             rule = 'R11.2' if 'operand position' not in c and 'statement position' not in c else 'R11.4'
+        elif ob == 'O6-operands':
+            rule = 'R11.4'
         elif ob in ('O6', 'O5') or (c.startswith('Expr::Function') and ob in ('O3', 'O7')):
             rule = 'R11.3'
         elif ob == 'O2':
